@@ -13,3 +13,10 @@ open Just.Props.C19
 #print axioms fallback_parent_refused
 #print axioms fallback_stable_never_refused
 #print axioms gated_features_are_documented
+#print axioms append_ne_nil_iff
+#print axioms features_of_uses
+#print axioms features_of_usesAny
+#print axioms uses_of_features
+#print axioms usesAny_of_features
+#print axioms allowed_iff
+#print axioms allowedAll_iff
